@@ -42,6 +42,7 @@ var rebind = map[string]map[string]string{
 	"time":        {"Now": "verif/shim/vtime", "Sleep": "verif/shim/vtime", "Since": "verif/shim/vtime", "Until": "verif/shim/vtime", "After": "verif/shim/vtime", "AfterFunc": "verif/shim/vtime"},
 	"bufio":       {"NewReader": "verif/shim/vbufio", "NewWriter": "verif/shim/vbufio", "NewReaderSize": "verif/shim/vbufio", "NewWriterSize": "verif/shim/vbufio", "Reader": "verif/shim/vbufio", "Writer": "verif/shim/vbufio"},
 	"sync/atomic": {"*": "verif/shim/vatomic"},
+	"runtime":     {"GOMAXPROCS": "verif/shim/vtime", "NumCPU": "verif/shim/vtime"},
 }
 
 var shimAlias = map[string]string{
